@@ -1,13 +1,575 @@
-// Package c09 is the correspondence harness for property C09 (placeholder).
 package c09
 
 import (
-	"errors"
+	"bufio"
+	"bytes"
+	"encoding/json"
+	"fmt"
+	"io"
+	"math/rand"
+	"os"
+	"os/exec"
+	"path/filepath"
+	"strings"
+	"sync"
+	"sync/atomic"
+	"time"
+
+	"google.golang.org/protobuf/encoding/protowire"
+	"google.golang.org/protobuf/proto"
 
 	"verifh/internal/hx"
 	"verifh/internal/lineio"
 )
 
 func Run(o *hx.Opts, w *lineio.Writer) error {
-	return errors.New("C09 harness not implemented")
+	if ctl := os.Getenv(pluginEnv); ctl != "" {
+		return pluginMain(ctl)
+	}
+	if os.Getenv(workerEnv) != "" {
+		return workerMain(o.Scratch)
+	}
+	var ids []string
+	var ins []*In
+	if o.Replay != "" {
+		cs, err := hx.ReplayCases(o.Replay)
+		if err != nil {
+			return err
+		}
+		for _, c := range cs {
+			var in In
+			if err := json.Unmarshal(c.In, &in); err != nil {
+				return fmt.Errorf("replay case %s: %w", c.ID, err)
+			}
+			ids = append(ids, c.ID)
+			ins = append(ins, &in)
+		}
+	} else {
+		ins = generate(o)
+		for i, in := range ins {
+			ids = append(ids, fmt.Sprintf("%s-%d-%03d", in.Stream, o.Seed, i))
+		}
+	}
+	workers := 4
+	if o.Thorough() {
+		workers = 6
+	}
+	if len(ins) < workers {
+		workers = len(ins)
+	}
+	obs := make([]*Obs, len(ins))
+	next := make(chan int, len(ins))
+	for i := range ins {
+		next <- i
+	}
+	close(next)
+	var wg sync.WaitGroup
+	var slow int32 // cases that ended by deadline: after a few, stop (each costs a full request timeout)
+	errs := make(chan error, workers)
+	for k := 0; k < workers; k++ {
+		wg.Add(1)
+		go func(k int) {
+			defer wg.Done()
+			p := &proc{dir: filepath.Join(o.Scratch, fmt.Sprintf("w%d", k))}
+			defer p.kill()
+			for i := range next {
+				if atomic.LoadInt32(&slow) >= 3 {
+					continue // not run, not emitted: the failing inputs are already on record
+				}
+				ob, err := p.do(ids[i], ins[i])
+				if err != nil {
+					errs <- err
+					return
+				}
+				obs[i] = ob
+				if ob.Outcome == "timeout" || ob.ErrKind == "deadline" {
+					atomic.AddInt32(&slow, 1)
+				}
+			}
+		}(k)
+	}
+	wg.Wait()
+	select {
+	case err := <-errs:
+		return err
+	default:
+	}
+	for i := range ins {
+		if obs[i] == nil {
+			continue
+		}
+		if err := w.Put(&lineio.Case{ID: ids[i], In: ins[i], Obs: obs[i]}); err != nil {
+			return err
+		}
+	}
+	return nil
+}
+
+// proc is one worker subprocess; it is restarted after a crash or a kill.
+type proc struct {
+	dir    string
+	cmd    *exec.Cmd
+	stdin  io.WriteCloser
+	stdout *bufio.Reader
+	stderr *bytes.Buffer
+	lines  chan []byte
+	gen    int
+}
+
+func (p *proc) start() error {
+	p.gen++
+	dir := filepath.Join(p.dir, fmt.Sprintf("g%d", p.gen))
+	if err := os.MkdirAll(dir, 0o755); err != nil {
+		return err
+	}
+	cmd := exec.Command(os.Args[0], "C09", "-out", dir)
+	cmd.Env = append(os.Environ(), workerEnv+"=1", "GOMEMLIMIT=3GiB", "GOTRACEBACK=single", "GOMAXPROCS=4")
+	in, err := cmd.StdinPipe()
+	if err != nil {
+		return err
+	}
+	out, err := cmd.StdoutPipe()
+	if err != nil {
+		return err
+	}
+	p.stderr = &bytes.Buffer{}
+	cmd.Stderr = p.stderr
+	if os.Getenv("VERIFH_C09_TIMING") != "" {
+		cmd.Stderr = os.Stderr
+	}
+	if err := cmd.Start(); err != nil {
+		return err
+	}
+	p.cmd, p.stdin = cmd, in
+	rd := bufio.NewReaderSize(out, 1<<20)
+	lines := make(chan []byte, 1)
+	p.lines = lines
+	go func() {
+		defer close(lines)
+		for {
+			l, err := rd.ReadBytes('\n')
+			if len(l) > 1 {
+				lines <- l
+			}
+			if err != nil {
+				return
+			}
+		}
+	}()
+	return nil
+}
+
+func (p *proc) kill() {
+	if p.cmd != nil {
+		p.stdin.Close()
+		p.cmd.Process.Kill()
+		p.cmd.Wait()
+		p.cmd = nil
+	}
+}
+
+func firstPanicLine(s string) string {
+	for _, l := range strings.Split(s, "\n") {
+		if strings.HasPrefix(l, "panic:") || strings.HasPrefix(l, "fatal error:") {
+			if len(l) > 200 {
+				l = l[:200]
+			}
+			return l
+		}
+	}
+	return ""
+}
+
+func (p *proc) do(id string, in *In) (*Obs, error) {
+	b, err := json.Marshal(workerReq{ID: id, In: in})
+	if err != nil {
+		return nil, err
+	}
+	for try := 0; ; try++ {
+		if p.cmd == nil {
+			if err := p.start(); err != nil {
+				return nil, err
+			}
+		}
+		if _, err := p.stdin.Write(append(b, '\n')); err == nil {
+			break
+		}
+		// the worker is gone (it exits on its own after reporting a stuck case): start a fresh one
+		p.kill()
+		if try == 2 {
+			return nil, fmt.Errorf("worker does not accept input")
+		}
+	}
+	limit := reqTimeout() + 25*time.Second
+	select {
+	case l, ok := <-p.lines:
+		if !ok {
+			// worker exited without answering: the runtime process died on this case
+			p.cmd.Wait()
+			msg := firstPanicLine(p.stderr.String())
+			tail := p.stderr.String()
+			if len(tail) > 600 {
+				tail = tail[:600]
+			}
+			p.cmd = nil
+			ob := emptyObs()
+			ob.Outcome, ob.Panic, ob.Alive, ob.Detail = "crashed", msg, false, tail
+			sizesInto(ob, in)
+			return ob, nil
+		}
+		var rsp workerRsp
+		if err := json.Unmarshal(l, &rsp); err != nil {
+			return nil, fmt.Errorf("worker answer: %w", err)
+		}
+		if rsp.ID != id {
+			return nil, fmt.Errorf("worker answered %q for %q", rsp.ID, id)
+		}
+		if rsp.Obs.Outcome == "timeout" {
+			p.kill()
+		}
+		return rsp.Obs, nil
+	case <-time.After(limit):
+		p.kill()
+		ob := emptyObs()
+		ob.Outcome, ob.Alive, ob.Detail = "timeout", false, "worker killed after "+limit.String()
+		sizesInto(ob, in)
+		return ob, nil
+	}
+}
+
+func emptyObs() *Obs {
+	return &Obs{Attempts: []Attempt{}, Plan: []ChunkObs{}, Calls: []CallObs{}, Returned: []int{}, RtUpdates: []int{},
+		PodSizes: [][2]int{}, CtrSizes: [][2]int{}, Plugins: []PluginObs{}}
+}
+
+// sizesInto measures the encoded object sizes in the parent (the worker that would have
+// reported them is gone).
+func sizesInto(ob *Obs, in *In) {
+	pods, ctrs := buildState(in)
+	var ps, cs []int
+	for _, p := range pods {
+		ps = append(ps, proto.Size(p))
+	}
+	for _, c := range ctrs {
+		cs = append(cs, proto.Size(c))
+	}
+	ob.PodSizes, ob.CtrSizes = compress(ps), compress(cs)
+}
+
+// ---------------------------------------------------------------- generator
+
+const (
+	tiny  = 0
+	kb    = 1000
+	kb100 = 100_000
+	mb    = 1 << 20 // four of these do not fit into one message
+	mbDec = 1_000_000
+)
+
+func mk(stream, note string, pods, ctrs [][2]int) *In {
+	if pods == nil {
+		pods = [][2]int{}
+	}
+	if ctrs == nil {
+		ctrs = [][2]int{}
+	}
+	return &In{Kind: "sync", Pods: pods, Ctrs: ctrs, Handler: "record", Updates: 0, Plugins: []PluginIn{},
+		Limit: ttrpcLimit, MinObjs: minObjs, Stream: stream, Note: note}
+}
+
+func run1(n, pad int) [][2]int {
+	if n == 0 {
+		return [][2]int{}
+	}
+	return [][2]int{{n, pad}}
+}
+
+func totalBytes(in *In) int {
+	t := 0
+	for _, r := range in.Pods {
+		t += r[0] * (r[1] + 64)
+	}
+	for _, r := range in.Ctrs {
+		t += r[0] * (r[1] + 64)
+	}
+	return t
+}
+
+// witnesses: the states DESIGN.md §6 #5 and #6 name.
+func witnesses() []*In {
+	return []*In{
+		mk("witness", "3 pods + 12 x 1MB containers (fallback to 4/4 slices beyond 3 pods)", run1(3, tiny), run1(12, mb)),
+		mk("witness", "0 pods + 9 x 1MB containers", nil, run1(9, mb)),
+		mk("witness", "2 pods + 40 x 300KB containers (pod share rounds to zero)", run1(2, tiny), run1(40, 300_000)),
+		func() *In {
+			in := mk("witness", "3 pods + 12 x 600KB containers, slices with spare capacity (4/4 fallback sends a pod that does not exist)", run1(3, tiny), run1(12, 600_000))
+			in.Slack = 4
+			return in
+		}(),
+	}
+}
+
+// fewLarge: the complete table of few-large-object states; `pick` selects a slice of it.
+func fewLarge() []*In {
+	var out []*In
+	for _, cpad := range []int{300_000, 500_000, mbDec, mb, 2_000_000, maxObjBytes} {
+		for _, ppad := range []int{tiny, kb, 500_000} {
+			for _, p := range []int{0, 1, 2, 3, 4, 5, 9} {
+				for _, c := range []int{0, 1, 2, 4, 5, 7, 8, 9, 10, 12, 16, 24, 40} {
+					if p == 0 && c == 0 && (ppad != tiny || cpad != 300_000) {
+						continue
+					}
+					in := mk("few-large", fmt.Sprintf("%d pods pad %d + %d ctrs pad %d", p, ppad, c, cpad), run1(p, ppad), run1(c, cpad))
+					if totalBytes(in) > 72<<20 {
+						continue
+					}
+					out = append(out, in)
+				}
+			}
+		}
+	}
+	return out
+}
+
+func scaleCount(rng *rand.Rand) int {
+	switch rng.Intn(10) {
+	case 0:
+		return 0
+	case 1, 2, 3:
+		return rng.Intn(21)
+	case 4, 5, 6:
+		return 20 + rng.Intn(281)
+	default:
+		return 300 + rng.Intn(2701)
+	}
+}
+
+func randomPads(rng *rand.Rand, n int, profile int) []int {
+	out := make([]int, n)
+	for i := range out {
+		switch profile {
+		case 0: // all tiny
+			out[i] = tiny
+		case 1: // around 1 KB
+			out[i] = kb + rng.Intn(64)
+		case 2: // mixed
+			switch x := rng.Intn(1000); {
+			case x < 600:
+				out[i] = tiny
+			case x < 900:
+				out[i] = kb
+			case x < 990:
+				out[i] = kb100
+			default:
+				out[i] = mbDec
+			}
+		case 3: // a few big objects among tiny ones
+			if rng.Intn(n/6+1) == 0 {
+				out[i] = []int{kb100, mbDec, mb, 2_000_000, maxObjBytes}[rng.Intn(5)]
+			}
+		case 4: // growing: later messages are rejected again and the counts shrink mid-way
+			out[i] = i * (4000 + rng.Intn(2000)) / (n/64 + 1)
+		case 5: // shrinking
+			out[i] = (n - i) * (4000 + rng.Intn(2000)) / (n/64 + 1)
+		case 6: // 100 KB
+			out[i] = kb100 + rng.Intn(1000)
+		}
+		if out[i] > maxObjBytes {
+			out[i] = maxObjBytes
+		}
+	}
+	return out
+}
+
+func capBytes(pads []int, budget int) []int {
+	t := 0
+	for i, p := range pads {
+		t += p + 64
+		if t > budget {
+			return pads[:i]
+		}
+	}
+	return pads
+}
+
+func random(rng *rand.Rand, budget int) *In {
+	p, c := scaleCount(rng), scaleCount(rng)
+	pp, cp := rng.Intn(7), rng.Intn(7)
+	if rng.Intn(3) > 0 {
+		pp = rng.Intn(3) // pods are usually small
+	}
+	pods := capBytes(randomPads(rng, p, pp), budget/4)
+	ctrs := capBytes(randomPads(rng, c, cp), budget)
+	in := mk("random", fmt.Sprintf("P=%d profile %d, C=%d profile %d", len(pods), pp, len(ctrs), cp), compress(pods), compress(ctrs))
+	if rng.Intn(4) == 0 {
+		in.Slack = 1 + rng.Intn(8)
+	}
+	switch rng.Intn(8) {
+	case 0:
+		in.Updates = 1
+	case 1:
+		in.Updates = 3
+	case 2:
+		in.Updates = len(ctrs)
+		if in.Updates > 200 {
+			in.Updates = 200
+		}
+	}
+	return in
+}
+
+// boundary: one message whose total length (payload + the 54 bytes ttrpc adds around it for
+// the request timeouts used here) is within a few bytes of the limit.
+func boundary(rng *rand.Rand) []*In {
+	var out []*In
+	for _, d := range []int{-16, -2, -1, 0, 1, 2, 16, 54, 55} {
+		p := rng.Intn(4)
+		c := 1 + rng.Intn(3)
+		target := ttrpcLimit - 54 + d // payload length aimed at
+		padN := target - 200
+		var in *In
+		for k := 0; k < 6; k++ {
+			in = mk("boundary", fmt.Sprintf("one message of limit%+d bytes", d), run1(p, tiny), append(run1(c-1, tiny), [2]int{1, padN}))
+			pods, ctrs := buildState(in)
+			sz := 0
+			for _, x := range pods {
+				n := proto.Size(x)
+				sz += 1 + protowire.SizeVarint(uint64(n)) + n
+			}
+			for _, x := range ctrs {
+				n := proto.Size(x)
+				sz += 1 + protowire.SizeVarint(uint64(n)) + n
+			}
+			if sz == target {
+				break
+			}
+			padN += target - sz
+		}
+		out = append(out, in)
+	}
+	return out
+}
+
+func handlers(rng *rand.Rand) []*In {
+	var out []*In
+	for _, h := range []string{"none", "error"} {
+		out = append(out, func() *In {
+			in := mk("handler", h+", single message", run1(2, tiny), run1(3, kb))
+			in.Handler = h
+			return in
+		}())
+		out = append(out, func() *In {
+			in := mk("handler", h+", split", run1(5+rng.Intn(30), kb), run1(20+rng.Intn(40), 300_000))
+			in.Handler = h
+			return in
+		}())
+	}
+	for _, k := range []int{1, 5, 64} {
+		in := mk("handler", fmt.Sprintf("%d updates, split", k), run1(3+rng.Intn(10), kb), run1(64+rng.Intn(64), kb100))
+		in.Updates = k
+		out = append(out, in)
+	}
+	return out
+}
+
+// unsendable: an object that exceeds the limit on its own — the state cannot be
+// transmitted; registration must fail cleanly.
+func unsendable(rng *rand.Rand) []*In {
+	big := ttrpcLimit + 1000
+	return []*In{
+		mk("unsendable", "single oversized container", nil, [][2]int{{1, big}}),
+		mk("unsendable", "oversized container among small ones", run1(3, tiny), [][2]int{{5 + rng.Intn(10), kb}, {1, big}, {4 + rng.Intn(10), kb}}),
+		mk("unsendable", "oversized pod among many containers", [][2]int{{2, tiny}, {1, big}}, run1(100+rng.Intn(200), kb)),
+	}
+}
+
+// huge: thousands of objects of each kind (the upper end of the property's quantifier).
+func huge(o *hx.Opts) []*In {
+	out := []*In{
+		mk("huge", "3000 tiny pods + 3000 tiny containers", run1(3000, tiny), run1(3000, tiny)),
+		mk("huge", "3000 pods of 1KB + 3000 containers of 1KB", run1(3000, kb), run1(3000, kb)),
+		mk("huge", "3000 tiny pods + 400 containers of 100KB", run1(3000, tiny), run1(400, kb100)),
+	}
+	if o.Thorough() {
+		out = append(out,
+			mk("huge", "3000 pods of 1KB + 3000 containers of 100KB (300 MB)", run1(3000, kb), run1(3000, kb100)),
+			mk("huge", "2 pods + 3000 containers of 100KB", run1(2, tiny), run1(3000, kb100)),
+			mk("huge", "3000 pods of 100KB + 5 containers of 1MB", run1(3000, kb100), run1(5, mbDec)),
+			mk("huge", "100 containers of 1MB + 100 just under the limit", run1(7, kb), [][2]int{{100, mbDec}, {60, maxObjBytes}}),
+		)
+		out[len(out)-1].Updates = 3
+	}
+	return out
+}
+
+// preinstalled: plugins launched by Adaptation.Start and synchronized by its `syncPlugins`.
+func preinstalled(rng *rand.Rand, n int) []*In {
+	states := []struct {
+		note       string
+		pods, ctrs [][2]int
+	}{
+		{"single message", run1(2, tiny), run1(3, kb)},
+		{"split, transmissible", run1(5, kb), run1(30, 300_000)},
+		{"split, minimum chunk fits", run1(3, tiny), run1(12, 500_000)},
+		{"not transmissible (4 x 1MiB)", run1(3, tiny), run1(12, mb)},
+		{"2 pods + 40 x 300KB", run1(2, tiny), run1(40, 300_000)},
+		{"empty state", nil, nil},
+		{"many small", run1(300, kb), run1(900, kb)},
+		{"growing sizes", run1(20, kb), [][2]int{{40, 20_000}, {20, 200_000}, {6, mbDec}}},
+	}
+	combos := [][]PluginIn{
+		{{"10", "a", "record", 2}},
+		{{"10", "a", "error", 0}, {"20", "b", "record", 1}},
+		{{"10", "a", "record", 1}, {"20", "b", "none", 0}, {"30", "c", "record", 2}},
+		{{"05", "a", "none", 0}, {"50", "b", "error", 0}},
+		{{"10", "a", "record", 0}, {"10", "b", "record", 3}},
+	}
+	var out []*In
+	for i := 0; i < n; i++ {
+		st := states[i%len(states)]
+		in := mk("pre", st.note, st.pods, st.ctrs)
+		in.Kind = "pre"
+		in.Handler = ""
+		in.Plugins = combos[rng.Intn(len(combos))]
+		if i < len(combos) {
+			in.Plugins = combos[i]
+		}
+		out = append(out, in)
+	}
+	return out
+}
+
+func generate(o *hx.Opts) []*In {
+	var out []*In
+	out = append(out, witnesses()...)
+	tab := fewLarge()
+	rng := o.Rand(1)
+	nFew := o.N(200, len(tab))
+	if nFew >= len(tab) {
+		out = append(out, tab...)
+	} else {
+		for _, i := range rng.Perm(len(tab))[:nFew] {
+			out = append(out, tab[i])
+		}
+	}
+	for i, in := range out {
+		// a third of the table with spare slice capacity (append-grown slices)
+		if in.Stream == "few-large" && i%3 == 2 {
+			in.Slack = 5
+		}
+	}
+	budget := 48 << 20
+	if o.Thorough() {
+		budget = 96 << 20
+	}
+	r2 := o.Rand(2)
+	for i := 0; i < o.N(400, 2500); i++ {
+		out = append(out, random(r2, budget))
+	}
+	out = append(out, huge(o)...)
+	out = append(out, boundary(o.Rand(3))...)
+	out = append(out, handlers(o.Rand(4))...)
+	out = append(out, unsendable(o.Rand(5))...)
+	out = append(out, preinstalled(o.Rand(6), o.N(16, 80))...)
+	return out
 }
